@@ -4,6 +4,7 @@
 -/
 import FontcProofs.FeaSimTop
 import FontcProofs.FeaLookupSem
+import FontcProofs.FeaAssemble
 
 namespace Fontc.FeaCompile
 open Cmp
@@ -87,5 +88,68 @@ theorem feats_fold (fx : Fixes) (U : List (List Glyph)) (dls : List Sys) (lsE : 
     obtain ⟨ids1, hinv1⟩ := top_feature fx U dls lsE hls es s ids x.1 x.2 hinv h1 h2 h3
     simp only [featTops, List.map_cons, List.foldl_cons, Src.entriesOf, St.top]
     exact ih _ _ ids1 hinv1 (fun y hy => hall y (by simp [hy]))
+
+theorem list_isEmpty_iff_forall {α : Type} (l : List α) : l.isEmpty = true ↔ ∀ x, x ∉ l := by
+  cases l with
+  | nil => simp
+  | cons a l =>
+    simp only [List.isEmpty_cons, Bool.false_eq_true, false_iff]
+    intro h; exact h a (by simp)
+
+/-- **`compile_correct`, flat fragment.**  Programs: `languagesystem` statements followed by feature
+    blocks whose statements are `lookupflag` and rule statements; every lookup of the program (run of
+    rules of one type under one flag) is a single, multiple or alternate substitution or a single
+    positioning lookup in which no glyph is targeted twice; no single rule stands next to a multiple
+    rule in one run (`NoMixFrom`); flags are normalised with attachment classes from the pairwise
+    disjoint family `U`; GDEF entries are distinct.  Then for every declared language system, every
+    feature set, every alternate selector and EVERY glyph string, the compiled tables shape the
+    string exactly as the source semantics says. -/
+theorem compile_correct_flat (fx : Fixes) (p : Program) (ls : List (Tag × Tag)) (fs : List (Tag × List Stmt))
+    (U : List (List Glyph))
+    (htops : p.tops = lsTops ls ++ featTops fs)
+    (hbodies : ∀ x ∈ fs, FlatBody x.2 ∧ FlagsOk U x.2 ∧ NoMixFrom {} x.2)
+    (hents : ∀ e ∈ Src.entries p,
+      ((headKind e.lookup.rules).isMapGsub = true ∨ headKind e.lookup.rules = .spos) ∧
+      (e.lookup.rules.flatMap Wf.targets).Nodup)
+    (hgdef : (p.gdef.map (·.1)).Nodup)
+    (hU1 : ∀ c ∈ U, c.Nodup) (hU2 : ∀ c ∈ U, ∀ c' ∈ U, c ≠ c' → ∀ g ∈ c, g ∉ c')
+    (script lang : Tag) (hreg : (script, lang) ∈ Src.langsysOf p.tops)
+    (feats : List Tag) (alt : Nat) (str : List Glyph) :
+    shape (compileWith fx p) script lang feats alt str = interp p script lang feats alt str := by
+  -- the state after the language systems
+  obtain ⟨h0, h1, h2, h3, h4, h5, h6, h7, h8, h9, h10, h11⟩ := foldl_lsTops fx ls {}
+  generalize hs0 : (lsTops ls).foldl (St.top fx) {} = s0 at h0 h1 h2 h3 h4 h5 h6 h7 h8 h9 h10 h11
+  have hdls : ∀ sys, sys ∈ s0.defaultSystems ↔ sys ∈ Src.langsysOf p.tops := by
+    intro sys
+    rw [htops, langsysOf_tops]
+    have hmem : ∀ x, x ∈ s0.langsys ↔ x ∈ ls := by intro x; rw [h0]; simp
+    have hemp : s0.langsys.isEmpty = ls.isEmpty := by
+      rw [Bool.eq_iff_iff, list_isEmpty_iff_forall, list_isEmpty_iff_forall]
+      constructor
+      · intro h x hx; exact h x ((hmem x).mpr hx)
+      · intro h x hx; exact h x ((hmem x).mp hx)
+    simp only [St.defaultSystems, hemp]
+    split
+    · rfl
+    · exact hmem sys
+  have hinit : TopInv fx U (Src.langsysOf p.tops) [] s0 [] := {
+    closed := ⟨h3, h4, h10, h9, h6⟩
+    dlsOk := hdls
+    idsInv := by unfold IdsInv; rw [h7, h8]; exact ⟨List.nodup_nil, List.nodup_nil⟩
+    attachU := by rw [h7]; simp
+    ents := trivial
+    ordered := List.Pairwise.nil
+    below := by simp
+    featKeys := by rw [h11]; exact List.nodup_nil
+    feats := by intro tag lang script; rw [h11]; simp [regIds, List.lookup]
+    regsUniform := by simp }
+  obtain ⟨ids, hinv⟩ := feats_fold fx U (Src.langsysOf p.tops) (Src.langsysOf p.tops) (fun _ => Iff.rfl) fs [] s0 [] hinit hbodies
+  have hentries : Src.entriesOf (Src.langsysOf p.tops) [] (featTops fs) = Src.entries p := by
+    simp only [Src.entries]
+    rw [htops, entriesOf_lsTops]
+  have hstate : (featTops fs).foldl (St.top fx) s0 = p.tops.foldl (St.top fx) {} := by
+    rw [htops, List.foldl_append, hs0]
+  rw [hentries, hstate] at hinv
+  exact correct_of_topInv fx p U _ _ ids hinv hents hgdef hU1 hU2 script lang hreg feats alt str
 
 end Fontc.FeaCompile
